@@ -64,3 +64,31 @@ package data
 //@ func Map.Equals
 //@   props C20 C01
 //@   ensures[strict] !typeis(other, Map) ==> !result
+
+// Collections are total: outside their domain they yield Undefined.
+//@ func List.Index
+//@   props C20 C01
+//@   ensures[in-range] 0 <= i && i < len(v) ==> result == v[i]
+//@   ensures[out-of-range] !(0 <= i && i < len(v)) ==> typeis(result, Undefined)
+//@ func Map.Key
+//@   props C20 C01
+//@   ensures[present] haskey(v, k) ==> result == v[k]
+//@   ensures[absent] !haskey(v, k) ==> typeis(result, Undefined)
+
+// Conversion: a value that already is Soy data is returned unchanged, so
+// converting twice changes nothing (the result type is data.Value); nil is Null.
+//@ func NewWith
+//@   props C20
+//@   nosafety
+//@   ensures[idempotent] implements(value, Value) ==> result == value
+//@   ensures[nil-is-null] !implements(value, Value) && value == nil ==> typeis(result, Null)
+//@   loop 0
+//@     noterm
+//@   loop 1
+//@     noterm
+//@   loop 2
+//@     noterm
+//@ func New
+//@   props C20
+//@   ensures[idempotent] implements(value, Value) ==> result == value
+//@   ensures[nil-is-null] !implements(value, Value) && value == nil ==> typeis(result, Null)
